@@ -18,6 +18,7 @@ fn main() {
     let mut ctx = Ctx::new(prop, tier, seed, driver, load_known(known));
     match prop.as_str() {
         "C12" => props::c12::run(&mut ctx),
+        "C09" => props::c09::run(&mut ctx),
         "C04" => props::c04::run(&mut ctx),
         "C06" => props::c06::run(&mut ctx),
         _ => { eprintln!("unknown property {prop}"); std::process::exit(2); }
